@@ -253,11 +253,11 @@ Definition exec_run (g : flow) (fuel : nat) (starting : list nat) : eoutcome :=
   if ok then match exec_loop g fuel e1 with Some e => EFinished e | None => EOutOfFuel end
   else EStartRefused e1.
 
-(* a second run() of the same composite object: provenance and queue are reset, values, own
-   input values, received sets and caches persist *)
+(* a second run() of the same composite object: provenance, queue and the received sets of the all-of
+   triggers are reset (a run starts fresh rounds); values, own input values and caches persist *)
 Definition exec_rerun (g : flow) (fuel : nat) (starting : list nat) (e0 : estate) : eoutcome :=
   let s := base e0 in
-  let e := {| base := {| outv := outv s; inv := inv s; recv := recv s; queue := []; prov := []; errs := [] |};
+  let e := {| base := {| outv := outv s; inv := inv s; recv := map (fun _ => []) g; queue := []; prov := []; errs := [] |};
               cache := cache e0; calls := [] |} in
   let '(e1, ok) := exec_start g e starting in
   if ok then match exec_loop g fuel e1 with Some e => EFinished e | None => EOutOfFuel end
